@@ -85,6 +85,11 @@ def tokens(text):
     while pos < len(text):
         m = TOKEN.match(text, pos)
         if not m:
+            rest = text[pos:]
+            if rest[:1] == '"' or rest[:2] == "#[" or (rest[:3].rstrip('"') in ("f", "b", "r", "br", "rb") and '"' in rest[:3]):
+                # an unterminated string / bracket string (the text is a truncated program): one token that runs past the end
+                out.append(("str", pos, len(text) + 1, rest + '"'))
+                break
             raise ValueError("untokenizable at %d: %r" % (pos, text[pos:pos + 10]))
         out.append((m.lastgroup if m.lastgroup != "d" else "bstr", m.start(), m.end(), m.group()))
         pos = m.end()
